@@ -85,6 +85,7 @@ def setup_interp(interp, con=None):
         box_vectors_to_lengths_and_angles=RepoSymbol(interp, "mdtraj/utils/unitcell.py", "box_vectors_to_lengths_and_angles"),
     )
     interp.import_models["mdtraj.utils.validation"] = utils
+    interp.import_models["mdtraj.utils.unitcell"] = utils
 
     class _Registry:
         """FormatRegistry.register_loader / register_fileobject are identity decorators that fill two dicts"""
